@@ -19,6 +19,7 @@ RULE = ("requests `tof64|tof32 D<c>:<s>` -> bit pattern; oracle: exact round-hal
         "#13/#14. Non-trivial = within 2 decimal ulps of a float midpoint or a power of two")
 BUILDS = {"quick": [("dev", ()), ("release", ())],
           "thorough": [("dev", ()), ("release", ()), ("release", ("packed",)), ("o0-nochk", ())]}
+MODE_INDEPENDENT = True      # half of every batch runs under a non-default thread rounding mode
 REQUIRED_SITES = {"tofloat.adj": 500, "tofloat.tie": 100}
 BUDGET = {"quick": 20, "thorough": 250}
 N_RANDOM = {"quick": 2500, "thorough": 10000}
